@@ -410,74 +410,96 @@ let handle (line : string) : string =
    | "CL" ->
        let _ = next t in
        let n = next_int t in
-       let st = ref init in
-       (* the send that has not returned yet: hop id, waiter index, was it registered in an open table,
+       (* one client object, possibly several connections (events CA / CF / SEL): the product machine of
+          Model/ClientMulti.v; harness connection k (0-based) is model connection k+1 *)
+       let ms = ref (mstep minit MConnect) in
+       let sel = ref 1 in                               (* connection the peer events act on *)
+       let curc () = int_of_nat !ms.cur in
+       let cst c = !ms.conn (nat_of_int c) in
+       (* the send that has not returned yet: hop id, connection, waiter index there, global send number,
           request octets let through the write gate so far, first octet already on the wire *)
-       let sending : (n * int * bool * int * bool) option ref = ref None in
+       let sending : (n * int * int * int * int * bool) option ref = ref None in
        let req_len = 44 in                              (* header 20 + Origin-Host "host.example.com" 8+16 *)
-       let labels : (int * string) list ref = ref [] in (* futures the harness dropped / sends that returned Err *)
-       let errs : int list ref = ref [] in              (* sends that returned Err: no future was handed out *)
-       let drain () =
-         let k = List.length !st.inq in
-         for _ = 1 to k do st := step !st ReaderStep done in
-       let apply e = st := step !st e; drain () in
+       let sends : (int * (int * int)) list ref = ref [] in     (* global send number -> (connection, waiter index), newest first *)
+       let nsends = ref 0 in
+       let labels : (int * string) list ref = ref [] in (* by global send number: futures dropped / sends that returned Err *)
+       let errs : int list ref = ref [] in              (* global send numbers whose send returned Err: no future handed out *)
+       let drain c =
+         let k = List.length (cst c).inq in
+         for _ = 1 to k do ms := mstep !ms (MPeer (nat_of_int c, ReaderStep)) done in
+       let apply_send e = (let c = curc () in ms := mstep !ms (MSend e); drain c) in
+       let apply_peer c e = (ms := mstep !ms (MPeer (nat_of_int c, e)); drain c) in
        let wire () = (match !sending with
-                      | Some (h, i, reg, k, false) -> sending := Some (h, i, reg, k, true); if reg then apply (WireOut h)
+                      | Some (h, c, i, g, k, false) -> sending := Some (h, c, i, g, k, true); ms := mstep !ms (MPeer (nat_of_int c, WireOut h)); drain c
                       | _ -> ()) in
        let finish () = (wire (); sending := None) in
-       (* the index of the event after which a future was first observable as completed: its waiter is no longer
-          pending AND its send has returned (the harness only has the future from then on) *)
        let resolved_at : (int * int) list ref = ref [] in
+       let wstate g = (let (c, i) = List.assoc g !sends in List.nth (outcomes (cst c)) i) in
        let observe k =
-         let cur = (match !sending with Some (_, j, _, _, _) -> j | None -> -1) in
-         List.iteri (fun i w ->
-           if i <> cur && not (List.mem_assoc i !resolved_at) && not (List.mem i !errs) then
-             (match w with WPending0 -> () | _ -> resolved_at := (i, k) :: !resolved_at)) (outcomes !st) in
+         let cur = (match !sending with Some (_, _, _, g, _, _) -> g | None -> -1) in
+         for g = 0 to !nsends - 1 do
+           if g <> cur && not (List.mem_assoc g !resolved_at) && not (List.mem g !errs) then
+             (match wstate g with WPending0 -> () | _ -> resolved_at := (g, k) :: !resolved_at)
+         done in
        for ev = 0 to n - 1 do
          (match next t with
           | "R" -> finish (); let h = next_n t in
-                   let i = int_of_nat !st.nw in let reg = not !st.closed in
-                   apply (Register h);
+                   let c = curc () in
+                   let i = int_of_nat (cst c).nw in let reg = not (cst c).closed in
+                   let g = !nsends in
+                   sends := (g, (c, i)) :: !sends; incr nsends;
+                   apply_send (Register h);
                    (* on a closed table send_message returns Err at once: nothing is blocked, no future exists *)
-                   if reg then sending := Some (h, i, reg, 0, false) else begin sending := None; errs := i :: !errs end
+                   if reg then sending := Some (h, c, i, g, 0, false) else begin sending := None; errs := g :: !errs end
           | "G" -> let k = int_of_string ("0x" ^ next t) in
                    if k > 0 then begin
                      wire ();
                      (match !sending with
-                      | Some (h, i, reg, a, w) -> if a + k >= req_len then sending := None else sending := Some (h, i, reg, a + k, w)
+                      | Some (h, c, i, g, a, w) -> if a + k >= req_len then sending := None else sending := Some (h, c, i, g, a + k, w)
                       | None -> ())
                    end
           | "W" -> finish ()
           | "WE" -> (match !sending with
-                     | Some (_, i, true, _, _) -> labels := (i, "ERR") :: !labels; errs := i :: !errs; sending := None; apply (Abandon (nat_of_int i))
+                     | Some (_, c, i, g, _, _) -> labels := (g, "ERR") :: !labels; errs := g :: !errs; sending := None;
+                                                  ms := mstep !ms (MPeer (nat_of_int c, Abandon (nat_of_int i))); drain c
                      | _ -> ())
-          | "D" -> let i = next_int t in
+          | "D" -> let g = next_int t in
                    (match !sending with
-                    | Some (_, j, _, _, _) when j = i -> ()                (* the send has not returned: nothing to drop yet *)
-                    | _ -> if i < int_of_nat !st.nw && not (List.mem_assoc i !labels) && not (List.mem i !errs) then begin
-                             labels := (i, "DROPPED") :: !labels; apply (Abandon (nat_of_int i)) end)
+                    | Some (_, _, _, g', _, _) when g' = g -> ()          (* the send has not returned: nothing to drop yet *)
+                    | _ -> if g < !nsends && not (List.mem_assoc g !labels) && not (List.mem g !errs) then begin
+                             let (c, i) = List.assoc g !sends in
+                             labels := (g, "DROPPED") :: !labels;
+                             ms := mstep !ms (MPeer (nat_of_int c, Abandon (nat_of_int i))); drain c end)
           | "T" -> let _ = next t in ()
-          | "P" -> let h = next_n t in apply (Peer h)
-          | "PS" -> let h = next_n t in let _ = next t in apply (Peer h)
-          | "PG" -> let h = next_n t in let _ = next t in let _ = next t in apply (Peer h)
+          | "CA" -> finish (); ms := mstep !ms MConnect; sel := curc ()
+          | "CF" -> finish (); ms := mstep !ms MConnectFail
+          | "SEL" -> let c = next_int t in if c + 1 <= curc () then sel := c + 1
+          | "P" -> let h = next_n t in apply_peer !sel (Peer h)
+          | "PS" -> let h = next_n t in let _ = next t in apply_peer !sel (Peer h)
+          | "PG" -> let h = next_n t in let _ = next t in let _ = next t in apply_peer !sel (Peer h)
           | "PT" -> let _ = next t in let _ = next t in ()
-          | "B" -> let _ = next t in apply PeerBad
+          | "B" -> let _ = next t in apply_peer !sel PeerBad
           | s -> raise (Parse ("client event " ^ s)));
          observe ev
        done;
        finish ();
        observe n;
        Buffer.add_string b "CL";
-       List.iteri (fun i w ->
-         match List.assoc_opt i !labels with
+       for g = 0 to !nsends - 1 do
+         match List.assoc_opt g !labels with
          | Some l -> Buffer.add_string b (" " ^ l)
          | None ->
-           let at = (match List.assoc_opt i !resolved_at with Some k -> "@" ^ string_of_int k | None -> "") in
-           (match w with
+           let at = (match List.assoc_opt g !resolved_at with Some k -> "@" ^ string_of_int k | None -> "") in
+           (match wstate g with
             | WGot f -> Buffer.add_string b (" GOT:" ^ hex_of_n f.hop0 ^ ":" ^ Printf.sprintf "%x" (int_of_nat f.fid) ^ at)
-            | WDropped -> Buffer.add_string b (" ERR" ^ at)
-            | WPending0 -> Buffer.add_string b " PENDING")) (outcomes !st);
-       Buffer.add_string b (if !st.closed then " READER stopped" else " READER alive")
+            | WDropped -> Buffer.add_string b (if List.mem g !errs then " ERR" else " ERR" ^ at)
+            | WPending0 -> Buffer.add_string b " PENDING")
+       done;
+       Buffer.add_string b (if (cst (curc ())).closed then " READER stopped" else " READER alive");
+       if curc () > 1 then begin
+         Buffer.add_string b " ALL";
+         for c = 1 to curc () do Buffer.add_string b (if (cst c).closed then " stopped" else " alive") done
+       end
    | "X" ->
        let ds = get_dict (next t) in
        let bs = next_bytes t in
